@@ -733,6 +733,10 @@ class Gen:
             L.emit()
         for d in e.fields:
             L = self.Line(self)
+            if r.chance(1, 6):
+                # a `memory` field is a field like any other: same visibility, same resolution
+                L.add(self.kw("memory") + " ")
+                self.count("memory-field") if hasattr(self, "count") else None
             d.sel = (len(self.lines), L.col(), L.col() + len(d.name))
             L.add(d.name + " : ")
             self.type_text(L, e, None, d.ty)
@@ -1220,6 +1224,10 @@ class Gen:
                 # `x.In` (of `Init`) is `x.` + the OPERATOR `in`: the following line would become its right operand (a `type`
                 # declaration on it — `type` is also an identifier — was swallowed: thorough tier, w1638)
                 pre = pre[:1]
+            if r.chance(1, 8):
+                # the letters typed so far spell a keyword that can neither continue the expression nor start a statement
+                # (`item.To` on the way to `item.Total`): still a partial member name — the members of the operand's class
+                pre = r.choice(["to", "To", "TO", "of", "Of", "step", "Step", "downto", "DownTo"])
             self.dot_query(L, e, m, elems[-1], {"partial"}, width=len(pre))
             col = L.col()
             L.add(pre)
